@@ -578,6 +578,9 @@ def _robust_gp_fit_(
                         s2 = s2[~idx_drop_out]
                     if tmp_gp.s2 is not None and tmp_gp.s2.size > 0:
                         tmp_gp.s2 = tmp_gp.s2[~idx_drop_out]
+                    # Keep the training set of the scratch GP aligned with its noise
+                    tmp_gp.X = X
+                    tmp_gp.y = Y
 
             # Retry with random sample prior
             old_hyp_gp = (
